@@ -19,14 +19,14 @@ LEVEL = {
          "rand's samplers trusted uniform; ln stubbed by a sound over-approximation; a different-but-also-uniform scheme would be flagged (accepted); the size of the documented gap-sampling bias for n>>4k is not decided."),
  "C06": ("Algebraic decomposition decided per lemma on arbitrary states: merge = cell-wise OR/sum/max, add = merge with a singleton, QF union = enc(X u Y), cuckoo union adds class counts; observers are functions of the raw state, hence stream equivalence, commutativity, associativity, idempotence.",
          "QF union only at 2 slots in Kani; cuckoo union at 4+4 slots and <=1 (thorough 2) evictions; engine-M contracts as in C14."),
- "C07": ("PARTIAL: decides usability (k>=1, m>=1, no panic), the cuckoo sizing relations and the fingerprint / quotient-remainder structure for symbolic (n,p); does NOT decide the false-positive frequencies or BloomFilter::len() accuracy (distributions over seeds).",
+ "C07": ("PARTIAL: decides usability (k>=1, m>=1, no panic), the sizing relations the rates rest on (Bloom: k within one of log2(1/p), m not below n ln(1/p)/ln(2)^2; cuckoo: capacity and fingerprint length 2^l * p >= 2*bucketsize, not wastefully long), BloomFilter::len() = -(m/k) ln(1-X/m) for every bit pattern at m=64, and the fingerprint / quotient-remainder structure for symbolic (n,p); does NOT decide the measured false-positive frequencies (distributions over seeds).",
          "ln/log2 are sound over-approximating stubs; p >= 2^-40 (cuckoo) / 2^-8 (Bloom), n <= 1024 / 16."),
- "C09": ("Manku-Motwani invariant proved inductive on the MIR of add (64-bit, symbolic n and width, 3 keys) and the query clauses derived from it with exact dyadic thresholds; the table-size bound (a counting argument over whole histories) is NOT decided.",
+ "C09": ("Manku-Motwani invariant proved inductive on the MIR of add (64-bit, symbolic n and width, 3 keys) and the query clauses derived from it with exact dyadic thresholds; of the table-size bound the step invariant it is derived from (after every add each tracked x has f+delta > floor(n/width)) is decided, the counting argument from it to width*(H+1) is Manku & Motwani's and is not re-proved.",
          "HashMap contract over 3 keys (validated natively); division lemma discharged separately; query check for width | 64, thresholds a/64, n < 2^20."),
  "C10": ("Top-k invariant proved inductive on the MIR of CMSHeap::add (dev profile incl. debug_assert) with HashMap/BTreeSet/Rc contracts and the sketch replaced by the C02 contract; the statement's clauses are discharged from the invariant.",
          "Proved modulo C02; 3 keys, k <= 2; BTreeSet order contract = TreeEntry::cmp's (n, obj)."),
  "C11": ("Allocation arithmetic decided for symbolic configurations (all fingerprint widths 2..64); no-growth is asserted in the step harnesses of the other properties (block counts / len / capacity unchanged by every operation incl. failed ones and clear).",
-         "PARTIAL: TDigest centroid count O(delta) not decided (float/asymptotic); LossyCounter exempt by the statement."),
+         "PARTIAL: TDigest centroid count O(delta) not decided (float/asymptotic) beyond: backlog bound, immediate merge at backlog 0, total fusion at delta 1.1, and the sample count handed to the scale function; LossyCounter exempt by the statement."),
  "C12": ("Err branches of the insert/union step obligations from arbitrary valid states: observational equality (len + every class count) for the cuckoo filter, raw equality to enc(X) for the quotient filter; 'later operations behave as if it had not happened' follows since the post-state is a pre-state of the next step.",
          "Raw equality for QF is sufficient, not necessary; cuckoo union at 4+4 slots; engine-M contracts."),
  "C13": ("Every reachable state is enc(X) for a set X (reference encoder, validated natively for history independence); one insert/query from enc(X) is compared with the specification and enc(X') by CBMC for all X, all elements at (2,2) — exact set semantics incl. absence, Full exactly at capacity.",
